@@ -155,6 +155,22 @@ for _, T in TY:
     w('//@   requires [storage_%s] %s.t.Type == rtype("%s") ==> len(tview("%s", %s)) == %s.shape[0] && len(tview("%s", %s)) >= %s.shape[0]' % (T, A, T, T, A, A, T, B, B))
 w("//@   config frame any")
 w("")
+# ---- Outer: ger(m, n, 1, x, 1, y, 1, A, lda) for a row-major result ----
+w("""// the outer product of two vectors into a row-major matrix hands (m, n, x, 1, y, 1, A, lda = columns) to BLAS ger; the
+// column-major result goes through Reshape + MatMul and is not under this contract (precondition [row_major])""")
+w("//@ func tensor.StdEng.Outer")
+w("//@   props C09")
+for c in common: w("//@   " + c)
+w("//@   config prune solver")
+w('//@   requires [row_major] (%s.AP.o & ColMajor) == DataOrder(0)' % C)
+w('//@   requires [ranks] len(%s.shape) == 1 && len(%s.strides) == 1 && len(%s.shape) == 1 && len(%s.strides) == 1 && len(%s.shape) == 2 && len(%s.strides) == 2' % (A, A, B, B, C, C))
+w('//@   requires [shapes] %s.shape[0] >= 1 && %s.shape[0] >= 1 && %s.shape[0] == %s.shape[0] && %s.shape[1] == %s.shape[0]' % (A, B, C, A, C, B))
+w('//@   requires [ghost_x] ' + ghost_vec(A))
+w('//@   requires [ghost_y] ' + ghost_vec(B))
+w('//@   requires [ghost_a] ' + ghost_mat(C, "c"))
+w('//@   requires [contiguous] %s.strides[0] == 1 && %s.strides[0] == 1 && %s.strides[0] == %s.shape[1] && %s.strides[1] == 1' % (A, B, C, C, C))
+w("//@   config frame any")
+w("")
 # the float32/float64-specialised engines' Inner (C20): the same parameter mapping, on the typed views directly
 for W, T in (("64", "float64"), ("32", "float32")):
     w("//@ func tensor.Float%sEngine.Inner" % W)
